@@ -34,212 +34,8 @@ func runC10(c *Ctx) {
 	}
 	r := c.R
 	const pkg = "ds"
-	pk := p.Pkg(pkg)
-	info := pk.TypesInfo
-
-	// ---- (1) handle validation
-	isSplice := func(name string) bool {
-		return name == "insert" || name == "insertValue" || name == "move" || name == "remove"
-	}
-	nHandleMethods := 0
-	for _, fd := range p.Methods(pkg, "list") {
-		if fd.Body == nil {
-			continue
-		}
-		var handleParams []types.Object
-		for _, po := range paramObjs(info, fd) {
-			if po != nil && shortTypeName(typeName(po.Type())) == "ListElement" {
-				handleParams = append(handleParams, po)
-			}
-		}
-		if len(handleParams) == 0 {
-			continue
-		}
-		nHandleMethods++
-		fkey := funcKey(pkg, fd)
-		f := newFuncCFG(p, info, fd.Body, fkey)
-		recvName := fd.Recv.List[0].Names[0].Name
-		typedOf := map[types.Object]types.Object{} // param -> typed variable
-		paramOfTyped := map[types.Object]types.Object{}
-		ast.Inspect(fd.Body, func(n ast.Node) bool {
-			as, ok := n.(*ast.AssignStmt)
-			if !ok || len(as.Rhs) != 1 || len(as.Lhs) < 1 {
-				return true
-			}
-			// the typed view of a handle parameter: a *listElement variable defined from a type
-			// assertion on the parameter or from a helper that receives the parameter
-			var src ast.Expr
-			switch x := ast.Unparen(as.Rhs[0]).(type) {
-			case *ast.TypeAssertExpr:
-				if x.Type != nil {
-					src = x.X
-				}
-			case *ast.CallExpr:
-				if len(x.Args) == 1 {
-					src = x.Args[0]
-				}
-			}
-			if src == nil {
-				return true
-			}
-			if po := objOfIdent(info, src); po != nil {
-				isHandle := false
-				for _, hp := range handleParams {
-					if hp == po {
-						isHandle = true
-					}
-				}
-				if tv := objOfIdent(info, as.Lhs[0]); isHandle && tv != nil && shortTypeName(typeName(tv.Type())) == "listElement" {
-					typedOf[po] = tv
-					paramOfTyped[tv] = po
-				}
-			}
-			return true
-		})
-		for _, hp := range handleParams {
-			key := fmt.Sprintf("%s param %s", fkey, hp.Name())
-			tv := typedOf[hp]
-			if tv == nil {
-				r.Fail("handle/validated", key, p.posStr(fd.Pos()), "the handle parameter is never type-asserted to *listElement, so its list pointer is never compared with the receiver: a removed or foreign handle is spliced into this list (or the parameter is ignored)")
-				continue
-			}
-			// edges where tv.list.Load() == l holds
-			eq := f.RelEdges(func(rel Rel) bool {
-				a, b := tv.Name()+".list.Load()", recvName
-				return rel.Op == "==" && ((rel.L == a && rel.R == b) || (rel.L == b && rel.R == a))
-			})
-			if len(eq) == 0 {
-				r.Fail("handle/validated", key, p.posStr(fd.Pos()), "no comparison of "+tv.Name()+".list.Load() with the receiver")
-				continue
-			}
-			// every splice using tv must be dominated by eq
-			nUse := 0
-			ok := true
-			for _, pt := range f.Find(func(n ast.Node) bool {
-				c, isCall := n.(*ast.CallExpr)
-				if !isCall {
-					return false
-				}
-				se, isSel := ast.Unparen(c.Fun).(*ast.SelectorExpr)
-				if !isSel || !isSplice(se.Sel.Name) {
-					return false
-				}
-				for _, a := range c.Args {
-					if rootObj(info, a) == tv || mentionsObj(info, []ast.Expr{a}, tv) {
-						return true
-					}
-				}
-				return false
-			}) {
-				nUse++
-				if w, only := f.OnlyThroughEdges(pt, eq); !only {
-					ok = false
-					r.Fail("handle/validated", key, f.PosOf(pt), "a splice using this handle is reachable without establishing that the handle belongs to this list", w...)
-				}
-			}
-			if nUse == 0 {
-				r.Fail("handle/validated", key, p.posStr(fd.Pos()), "the validated handle is never used in a splice (the parameter has no effect)")
-			} else if ok {
-				r.Pass("handle/validated", key, p.posStr(fd.Pos()), fmt.Sprintf("asserted, compared with the receiver, %d splice use(s) dominated by the membership edge", nUse))
-			}
-		}
-		// splice arguments derive only from validated handles or the sentinel
-		inspectNoLit(fd.Body, func(n ast.Node) bool {
-			c, isCall := n.(*ast.CallExpr)
-			if !isCall {
-				return true
-			}
-			se, isSel := ast.Unparen(c.Fun).(*ast.SelectorExpr)
-			if !isSel || !isSplice(se.Sel.Name) {
-				return true
-			}
-			for i, a := range c.Args {
-				if !strings.HasSuffix(typeName(info.TypeOf(a)), "listElement") {
-					continue
-				}
-				ro := rootObj(info, a)
-				okSrc := false
-				if ro != nil && paramOfTyped[ro] != nil {
-					okSrc = true
-				}
-				if ro != nil && ro.Name() == recvName && strings.Contains(exprKey(a), ".root") {
-					okSrc = true
-				}
-				key := fmt.Sprintf("%s %s arg %d", fkey, se.Sel.Name, i)
-				if okSrc {
-					r.Pass("handle/splice-args", key, p.posStr(a.Pos()), exprKey(a)+" derives from a validated handle or the sentinel")
-				} else {
-					r.Fail("handle/splice-args", key, p.posStr(a.Pos()), exprKey(a)+" is neither derived from a validated handle nor from the sentinel")
-				}
-			}
-			return true
-		})
-	}
-	if nHandleMethods < 7 {
-		r.Fail("handle/validated", "ds.list handle-taking methods", "-", fmt.Sprintf("expected at least 7 methods taking element handles, found %d", nHandleMethods))
-	}
-
-	// ---- (2) bookkeeping
-	type site struct{ fn, what string }
-	var sites []site
-	for _, fd := range p.Methods(pkg, "list") {
-		if fd.Body == nil {
-			continue
-		}
-		ast.Inspect(fd.Body, func(n ast.Node) bool {
-			switch x := n.(type) {
-			case *ast.IncDecStmt:
-				if fieldSel(info, x.X, "len") {
-					sites = append(sites, site{fd.Name.Name, "len" + x.Tok.String()})
-				}
-			case *ast.AssignStmt:
-				for _, l := range x.Lhs {
-					if fieldSel(info, l, "len") {
-						sites = append(sites, site{fd.Name.Name, "len=" + exprKey(x.Rhs[0])})
-					}
-				}
-			case *ast.CallExpr:
-				if se, ok := ast.Unparen(x.Fun).(*ast.SelectorExpr); ok && se.Sel.Name == "Store" && fieldSel(info, se.X, "list") && len(x.Args) == 1 {
-					v := "recv"
-					if isNil(info, x.Args[0]) {
-						v = "nil"
-					}
-					sites = append(sites, site{fd.Name.Name, "list.Store(" + v + ")"})
-				}
-			}
-			return true
-		})
-	}
-	want := map[string]string{"len++": "insert", "len--": "remove", "len=0": "Init", "list.Store(recv)": "insert", "list.Store(nil)": "remove"}
-	got := map[string][]string{}
-	for _, s := range sites {
-		got[s.what] = append(got[s.what], s.fn)
-	}
-	var whats []string
-	for w := range got {
-		whats = append(whats, w)
-	}
-	for w := range want {
-		if _, ok := got[w]; !ok {
-			whats = append(whats, w)
-		}
-	}
-	sort.Strings(whats)
-	for _, w := range whats {
-		key := "ds.list " + w
-		fns := got[w]
-		if wf, ok := want[w]; ok && len(fns) == 1 && fns[0] == wf {
-			r.Pass("bookkeeping/sites", key, "-", "only in "+wf)
-		} else if ok {
-			r.Fail("bookkeeping/sites", key, "-", fmt.Sprintf("must occur exactly once, in %s; found in %v", wf, fns))
-		} else {
-			r.Fail("bookkeeping/sites", key, "-", fmt.Sprintf("unexpected modification of len / element.list in %v", fns))
-		}
-	}
-
-	// ---- (3) splice shape vs container/list
-	checkSpliceShape(r, p)
-
+	info := p.Pkg(pkg).TypesInfo
+	checkListCore(r, p)
 	// ---- (4) decorator
 	checkOverride(r, p, "decorator/declares-all", pkg, "threadSafeList", "List")
 	checkGuards(r, p, "lock/guarded-by", []GuardRow{{Pkg: pkg, Type: "threadSafeList", Mutex: "mutex", Fields: []string{"list"},
@@ -664,4 +460,217 @@ func checkSpliceShape(r *Reporter, p *Prog) {
 			r.Fail("splice/agrees-with-container-list", key, p.posStr(fd.Pos()), fmt.Sprintf("the pointer updates differ from container/list.%s for some ring shape (a load moved across a store that may alias it, a store dropped or redirected): got %s, reference %s", name, got.String(), want.String()))
 		}
 	}
+}
+
+// checkListCore: handle validation, len/list bookkeeping and splice shapes of ds.list - the rules
+// every user of ds.List as a registry relies on (shared with C13: the subscriber lists of the
+// reactive types are ds.Lists whose handles are removed by the unsubscribe closures).
+func checkListCore(r *Reporter, p *Prog) {
+	const pkg = "ds"
+	pk := p.Pkg(pkg)
+	info := pk.TypesInfo
+
+	// ---- (1) handle validation
+	isSplice := func(name string) bool {
+		return name == "insert" || name == "insertValue" || name == "move" || name == "remove"
+	}
+	nHandleMethods := 0
+	for _, fd := range p.Methods(pkg, "list") {
+		if fd.Body == nil {
+			continue
+		}
+		var handleParams []types.Object
+		for _, po := range paramObjs(info, fd) {
+			if po != nil && shortTypeName(typeName(po.Type())) == "ListElement" {
+				handleParams = append(handleParams, po)
+			}
+		}
+		if len(handleParams) == 0 {
+			continue
+		}
+		nHandleMethods++
+		fkey := funcKey(pkg, fd)
+		f := newFuncCFG(p, info, fd.Body, fkey)
+		recvName := fd.Recv.List[0].Names[0].Name
+		typedOf := map[types.Object]types.Object{} // param -> typed variable
+		paramOfTyped := map[types.Object]types.Object{}
+		ast.Inspect(fd.Body, func(n ast.Node) bool {
+			as, ok := n.(*ast.AssignStmt)
+			if !ok || len(as.Rhs) != 1 || len(as.Lhs) < 1 {
+				return true
+			}
+			// the typed view of a handle parameter: a *listElement variable defined from a type
+			// assertion on the parameter or from a helper that receives the parameter
+			var src ast.Expr
+			switch x := ast.Unparen(as.Rhs[0]).(type) {
+			case *ast.TypeAssertExpr:
+				if x.Type != nil {
+					src = x.X
+				}
+			case *ast.CallExpr:
+				if len(x.Args) == 1 {
+					src = x.Args[0]
+				}
+			}
+			if src == nil {
+				return true
+			}
+			if po := objOfIdent(info, src); po != nil {
+				isHandle := false
+				for _, hp := range handleParams {
+					if hp == po {
+						isHandle = true
+					}
+				}
+				if tv := objOfIdent(info, as.Lhs[0]); isHandle && tv != nil && shortTypeName(typeName(tv.Type())) == "listElement" {
+					typedOf[po] = tv
+					paramOfTyped[tv] = po
+				}
+			}
+			return true
+		})
+		for _, hp := range handleParams {
+			key := fmt.Sprintf("%s param %s", fkey, hp.Name())
+			tv := typedOf[hp]
+			if tv == nil {
+				r.Fail("handle/validated", key, p.posStr(fd.Pos()), "the handle parameter is never type-asserted to *listElement, so its list pointer is never compared with the receiver: a removed or foreign handle is spliced into this list (or the parameter is ignored)")
+				continue
+			}
+			// edges where tv.list.Load() == l holds
+			eq := f.RelEdges(func(rel Rel) bool {
+				a, b := tv.Name()+".list.Load()", recvName
+				return rel.Op == "==" && ((rel.L == a && rel.R == b) || (rel.L == b && rel.R == a))
+			})
+			if len(eq) == 0 {
+				r.Fail("handle/validated", key, p.posStr(fd.Pos()), "no comparison of "+tv.Name()+".list.Load() with the receiver")
+				continue
+			}
+			// every splice using tv must be dominated by eq
+			nUse := 0
+			ok := true
+			for _, pt := range f.Find(func(n ast.Node) bool {
+				c, isCall := n.(*ast.CallExpr)
+				if !isCall {
+					return false
+				}
+				se, isSel := ast.Unparen(c.Fun).(*ast.SelectorExpr)
+				if !isSel || !isSplice(se.Sel.Name) {
+					return false
+				}
+				for _, a := range c.Args {
+					if rootObj(info, a) == tv || mentionsObj(info, []ast.Expr{a}, tv) {
+						return true
+					}
+				}
+				return false
+			}) {
+				nUse++
+				if w, only := f.OnlyThroughEdges(pt, eq); !only {
+					ok = false
+					r.Fail("handle/validated", key, f.PosOf(pt), "a splice using this handle is reachable without establishing that the handle belongs to this list", w...)
+				}
+			}
+			if nUse == 0 {
+				r.Fail("handle/validated", key, p.posStr(fd.Pos()), "the validated handle is never used in a splice (the parameter has no effect)")
+			} else if ok {
+				r.Pass("handle/validated", key, p.posStr(fd.Pos()), fmt.Sprintf("asserted, compared with the receiver, %d splice use(s) dominated by the membership edge", nUse))
+			}
+		}
+		// splice arguments derive only from validated handles or the sentinel
+		inspectNoLit(fd.Body, func(n ast.Node) bool {
+			c, isCall := n.(*ast.CallExpr)
+			if !isCall {
+				return true
+			}
+			se, isSel := ast.Unparen(c.Fun).(*ast.SelectorExpr)
+			if !isSel || !isSplice(se.Sel.Name) {
+				return true
+			}
+			for i, a := range c.Args {
+				if !strings.HasSuffix(typeName(info.TypeOf(a)), "listElement") {
+					continue
+				}
+				ro := rootObj(info, a)
+				okSrc := false
+				if ro != nil && paramOfTyped[ro] != nil {
+					okSrc = true
+				}
+				if ro != nil && ro.Name() == recvName && strings.Contains(exprKey(a), ".root") {
+					okSrc = true
+				}
+				key := fmt.Sprintf("%s %s arg %d", fkey, se.Sel.Name, i)
+				if okSrc {
+					r.Pass("handle/splice-args", key, p.posStr(a.Pos()), exprKey(a)+" derives from a validated handle or the sentinel")
+				} else {
+					r.Fail("handle/splice-args", key, p.posStr(a.Pos()), exprKey(a)+" is neither derived from a validated handle nor from the sentinel")
+				}
+			}
+			return true
+		})
+	}
+	if nHandleMethods < 7 {
+		r.Fail("handle/validated", "ds.list handle-taking methods", "-", fmt.Sprintf("expected at least 7 methods taking element handles, found %d", nHandleMethods))
+	}
+
+	// ---- (2) bookkeeping
+	type site struct{ fn, what string }
+	var sites []site
+	for _, fd := range p.Methods(pkg, "list") {
+		if fd.Body == nil {
+			continue
+		}
+		ast.Inspect(fd.Body, func(n ast.Node) bool {
+			switch x := n.(type) {
+			case *ast.IncDecStmt:
+				if fieldSel(info, x.X, "len") {
+					sites = append(sites, site{fd.Name.Name, "len" + x.Tok.String()})
+				}
+			case *ast.AssignStmt:
+				for _, l := range x.Lhs {
+					if fieldSel(info, l, "len") {
+						sites = append(sites, site{fd.Name.Name, "len=" + exprKey(x.Rhs[0])})
+					}
+				}
+			case *ast.CallExpr:
+				if se, ok := ast.Unparen(x.Fun).(*ast.SelectorExpr); ok && se.Sel.Name == "Store" && fieldSel(info, se.X, "list") && len(x.Args) == 1 {
+					v := "recv"
+					if isNil(info, x.Args[0]) {
+						v = "nil"
+					}
+					sites = append(sites, site{fd.Name.Name, "list.Store(" + v + ")"})
+				}
+			}
+			return true
+		})
+	}
+	want := map[string]string{"len++": "insert", "len--": "remove", "len=0": "Init", "list.Store(recv)": "insert", "list.Store(nil)": "remove"}
+	got := map[string][]string{}
+	for _, s := range sites {
+		got[s.what] = append(got[s.what], s.fn)
+	}
+	var whats []string
+	for w := range got {
+		whats = append(whats, w)
+	}
+	for w := range want {
+		if _, ok := got[w]; !ok {
+			whats = append(whats, w)
+		}
+	}
+	sort.Strings(whats)
+	for _, w := range whats {
+		key := "ds.list " + w
+		fns := got[w]
+		if wf, ok := want[w]; ok && len(fns) == 1 && fns[0] == wf {
+			r.Pass("bookkeeping/sites", key, "-", "only in "+wf)
+		} else if ok {
+			r.Fail("bookkeeping/sites", key, "-", fmt.Sprintf("must occur exactly once, in %s; found in %v", wf, fns))
+		} else {
+			r.Fail("bookkeeping/sites", key, "-", fmt.Sprintf("unexpected modification of len / element.list in %v", fns))
+		}
+	}
+
+	// ---- (3) splice shape vs container/list
+	checkSpliceShape(r, p)
+
 }
